@@ -696,11 +696,17 @@ func runC05Proc(c *fw.Case) {
 // in between; a connection that succeeds proves nothing. The socket table decides: the child must own the listening
 // socket. A child that lost the port exits and another port is tried.
 func startServer(args ...string) (stop func(), addr string, err error) {
+	stop, addr, _, err = startServerProc(args...)
+	return
+}
+
+// startServerProc is startServer that also hands out the process (to signal it).
+func startServerProc(args ...string) (stop func(), addr string, proc *os.Process, err error) {
 	var last string
 	for try := 0; try < 5; try++ {
 		ln, err := net.Listen("tcp", "127.0.0.1:0")
 		if err != nil {
-			return nil, "", err
+			return nil, "", nil, err
 		}
 		addr = ln.Addr().String()
 		port := ln.Addr().(*net.TCPAddr).Port
@@ -710,14 +716,14 @@ func startServer(args ...string) (stop func(), addr string, err error) {
 		cmd.Stdout, cmd.Stderr = &out, &out
 		cmd.Env = append(os.Environ(), "HOME=/nonexistent-verif-home")
 		if err := cmd.Start(); err != nil {
-			return nil, "", err
+			return nil, "", nil, err
 		}
 		exited := make(chan struct{})
 		go func() { cmd.Wait(); close(exited) }()
 		stop = func() { cmd.Process.Kill(); <-exited }
 		for i := 0; i < 1500; i++ {
 			if pidListensOn(cmd.Process.Pid, port) {
-				return stop, addr, nil
+				return stop, addr, cmd.Process, nil
 			}
 			select {
 			case <-exited:
@@ -729,7 +735,7 @@ func startServer(args ...string) (stop func(), addr string, err error) {
 		stop()
 		last = out.String()
 	}
-	return nil, "", fmt.Errorf("%w: server did not start listening: %s", errProcTimeout, last)
+	return nil, "", nil, fmt.Errorf("%w: server did not start listening: %s", errProcTimeout, last)
 }
 
 // pidListensOn reports whether process pid owns a socket listening on 127.0.0.1:port (from /proc).
@@ -1496,6 +1502,10 @@ func (g *procGroup) get(i int, path string) string {
 
 func runC11Proc(c *fw.Case) {
 	c.Probe("process-level-case (real desync binary)")
+	if c.ChanceAdded(1, 4, "chain.reload") {
+		runC11ProcReload(c)
+		return
+	}
 	sz := sizes{64, 256, 1024}
 	r := c.Rand("blob.seed")
 	blob := make([]byte, (3+r.IntN(10))*int(sz.avg))
@@ -2364,6 +2374,158 @@ func runC19Proc(c *fw.Case) {
 				return
 			}
 		}
+	}
+	c.Outcome("ok")
+}
+
+// runC11ProcReload: `desync chunk-server --store-file` swaps its store chain on SIGHUP "under load as well". A request
+// that is in flight in the old chain when the reload is asked for completes correctly, a chunk both chains hold never
+// stops being served, and afterwards the new chain answers.
+func runC11ProcReload(c *fw.Case) {
+	r := c.Rand("reload.seed")
+	mk := func() []byte {
+		b := make([]byte, 50+r.IntN(2000))
+		for i := range b {
+			b[i] = byte(r.IntN(256))
+		}
+		return b
+	}
+	onlyOld, both, onlyNew := mk(), mk(), mk()
+	gOld, err := newGateServer(false)
+	if err != nil {
+		c.HarnessError("%v", err)
+		return
+	}
+	defer gOld.close()
+	gNew, err := newGateServer(false)
+	if err != nil {
+		c.HarnessError("%v", err)
+		return
+	}
+	defer gNew.close()
+	idOld, idBoth := gOld.addChunk(onlyOld), gOld.addChunk(both)
+	gNew.addChunk(both)
+	idNew := gNew.addChunk(onlyNew)
+	storeFile := filepath.Join(c.Dir(), "stores.json")
+	useCache := c.Bool("reload.cache")
+	cacheOld, cacheNew := filepath.Join(c.Dir(), "cache.old"), filepath.Join(c.Dir(), "cache.new")
+	os.MkdirAll(cacheOld, 0755)
+	os.MkdirAll(cacheNew, 0755)
+	write := func(url, cache string) {
+		if useCache {
+			os.WriteFile(storeFile, []byte(fmt.Sprintf(`{"stores": [%q], "cache": %q}`, url, cache)), 0644)
+		} else {
+			os.WriteFile(storeFile, []byte(fmt.Sprintf(`{"stores": [%q]}`, url)), 0644)
+		}
+	}
+	write(gOld.url(), cacheOld)
+	unc := c.Bool("reload.uncompressed")
+	args := []string{"chunk-server", "--store-file", storeFile, "-e", "0"}
+	if unc {
+		args = append(args, "-u")
+	}
+	c.Class(fmt.Sprintf("cli chunk-server reload cache=%v unc=%v", useCache, unc))
+	c.Note("real `desync %s`, SIGHUP while a request is held in the old upstream", strings.Join(args, " "))
+	c.NonTrivial()
+	stop, addr, proc, err := startServerProc(args...)
+	if errors.Is(err, errProcTimeout) {
+		c.Probe("procsim-timeout-case-dropped")
+		return
+	}
+	if err != nil {
+		c.HarnessError("%v", err)
+		return
+	}
+	defer stop()
+	u, _ := url.Parse("http://" + addr + "/")
+	cl, err := desync.NewRemoteHTTPStore(u, desync.StoreOptions{Uncompressed: unc, ErrorRetry: 0, Timeout: 30 * time.Second})
+	if err != nil {
+		c.HarnessError("%v", err)
+		return
+	}
+	site := "desync chunk-server --store-file"
+	get := func(id desync.ChunkID, want []byte) string {
+		ch, err := cl.GetChunk(id)
+		if err != nil {
+			if isMissing(err) {
+				return "missing"
+			}
+			return "error: " + err.Error()
+		}
+		if b, derr := ch.Data(); derr != nil || !bytes.Equal(b, want) {
+			return "wrong data"
+		}
+		return "ok"
+	}
+	// hold the upstream request for the chunk only the old chain has
+	gOld.holdKind, gOld.holdAt = "GET", 1
+	inflight := make(chan string, 1)
+	go func() { inflight <- get(idOld, onlyOld) }()
+	select {
+	case <-gOld.held:
+	case res := <-inflight:
+		c.Violate("policy-violation", site, "the request for a chunk of the first chain ended before reaching its upstream: %s", res)
+		return
+	case <-time.After(20 * time.Second):
+		c.Probe("procsim-timeout-case-dropped")
+		close(gOld.release)
+		return
+	}
+	// reload while it is in flight, with a steady load on the chunk both chains hold
+	write(gNew.url(), cacheNew)
+	proc.Signal(syscall.SIGHUP)
+	c.Fault("store-reloaded-under-load")
+	stopLoad := make(chan struct{})
+	loadRes := make(chan string, 1)
+	go func() {
+		n := 0
+		for {
+			select {
+			case <-stopLoad:
+				loadRes <- ""
+				return
+			default:
+			}
+			if res := get(idBoth, both); res != "ok" {
+				loadRes <- fmt.Sprintf("request %d for a chunk both chains hold: %s", n, res)
+				return
+			}
+			n++
+		}
+	}()
+	time.Sleep(time.Duration(c.Draw(30, "reload.delay.ms")) * time.Millisecond)
+	close(gOld.release)
+	res := <-inflight
+	c.SubEval(1)
+	if res != "ok" {
+		close(stopLoad)
+		<-loadRes
+		c.Violate("policy-violation", site+"/in-flight", "the request that was in flight in the old chain when the reload was requested ended with: %s", res)
+		return
+	}
+	// the new chain takes over
+	deadline := time.Now().Add(15 * time.Second)
+	took := false
+	for time.Now().Before(deadline) {
+		if get(idNew, onlyNew) == "ok" {
+			took = true
+			break
+		}
+		time.Sleep(5 * time.Millisecond)
+	}
+	close(stopLoad)
+	if lr := <-loadRes; lr != "" {
+		c.Violate("policy-violation", site+"/load", "%s", lr)
+		return
+	}
+	if !took {
+		c.Probe("reload-not-observed-in-time")
+		return
+	}
+	c.SubEval(1)
+	if res := get(idOld, onlyOld); res != "missing" && !(useCache && res == "ok" && false) {
+		c.Violate("policy-violation", site+"/after", "after the reload a chunk only the old chain had is answered with %q instead of missing", res)
+		return
 	}
 	c.Outcome("ok")
 }
